@@ -229,7 +229,20 @@ class Explorer:
                 self._refresh_model()
             if self.model is None:
                 raise ForkCap()
-            v = self.model.eval(x.t, model_completion=True).as_signed_long()
+            v = None
+            # boundary candidates first (all-ones, alternating patterns, values around 2^53): where the code under
+            # test forces enumeration (floats, range(n), hashing) the interesting inputs are at the edges
+            self._cand_i = getattr(self, "_cand_i", 0)
+            if self._cand_i < 6 and x.hi - x.lo > 64:
+                bits = max(x.hi.bit_length(), 1)
+                cands = [x.hi, int("55" * 16, 16) & ((1 << bits) - 1), (1 << 53) + 1, x.hi - 1, x.lo, (1 << (bits - 1))]
+                while self._cand_i < 6 and v is None:
+                    c = cands[self._cand_i]
+                    self._cand_i += 1
+                    if x.lo <= c <= x.hi and self._feasible(x.t == z3.BitVecVal(c, x.w)):
+                        v = c
+            if v is None:
+                v = self.model.eval(x.t, model_completion=True).as_signed_long()
             eq = x.t == z3.BitVecVal(v, x.w)
             if not self._feasible(z3.Not(eq)):
                 self.decisions.append(('c', v, True))  # forced value: recorded, no alternative
@@ -321,6 +334,7 @@ class Explorer:
             self.ticks = 0
             self.model = None
             self.known = {}
+            self._cand_i = 0
             self.solver = self._new_solver()
             for a in self.assumptions:
                 self.solver.add(a)
